@@ -83,11 +83,19 @@ def observe(rule_name, element, kids, content):
         errs = None if mode == "failfast" else []
         prefilled = mode == "collecting" and len(str(content)) % 2 == 1
         if prefilled:
-            errs.append(_EARLIER)  # a list that already holds an entry from an earlier validation
+            # a list shared with earlier validations: an unrelated entry plus whatever an identical twin node produces
+            errs.append(_EARLIER)
+            twin = emlkit.make_node(rule_name, element, kids, content=content)
+            try:
+                emlkit.validate_as(rule_name, twin, errs)
+            except Exception:
+                pass
+            emlkit.discard(twin)
+            before = list(errs)
         try:
             emlkit.validate_as(rule_name, n, errs)
             if prefilled:
-                errs = errs[1:] if errs and errs[0] is _EARLIER else ["earlier-entry-lost"]
+                errs = errs[len(before):] if len(errs) >= len(before) and all(a is b for a, b in zip(errs, before)) else ["earlier-entries-disturbed"]
             if mode == "failfast" or not errs:
                 res.append(C.ACCEPT)
             elif not emlkit.errs_wellformed(errs):
